@@ -65,10 +65,12 @@ def generate(out_dir, seed, max_n):
                     for k in range(n):
                         shx += struct.pack('>ii', offsets[k] // 2, (len(bodies[k]) - 8) // 2)
                     name = 'p%02d_n%d_%s_%s' % (t, n, ''.join(map(str, perm)), mode)
-                    open(os.path.join(out_dir, name + '.shp'), 'wb').write(shp)
+                    # every fourth pair is named NAME.SHP with its index next to it as NAME.shx
+                    ext = 'SHP' if count % 4 == 1 else 'shp'
+                    open(os.path.join(out_dir, name + '.' + ext), 'wb').write(shp)
                     open(os.path.join(out_dir, name + '.shx'), 'wb').write(shx)
-                    files.write(json.dumps({'file': name, 'shx': True, 'typed': t}) + '\n')
-                    models.write(json.dumps({'file': name, 'type': t, 'records': recs, 'physical_order': list(perm),
+                    files.write(json.dumps({'file': name, 'shx': True, 'typed': t, 'ext': ext}) + '\n')
+                    models.write(json.dumps({'file': name, 'ext': ext, 'type': t, 'records': recs, 'physical_order': list(perm),
                                              'filler_mode': mode, 'filler_bytes': fill_total,
                                              'trailing_filler': len(f)}) + '\n')
                     count += 1
